@@ -144,29 +144,31 @@ theorem ite_ok_same (s v : RState) (c : Prop) [Decidable c] (e : RErr) (rts : Li
 theorem unstack_depth_same (a b : RState) (d : Nat) (h : unstackRule { a with depth := d } = .ok b) : SameRefs a b :=
   same_trans (⟨rfl, rfl⟩ : SameRefs a { a with depth := d }) (unstackRule_same _ _ h)
 
-/-- every statement of a rule method except the two that handle references and marks leaves the
-    marker bookkeeping alone; those two only add to what is covered -/
-theorem execAct_covers (cfg : Cfg) (a : Act) (s : RState) (args : Args) (st : Step)
-    (h : execAct cfg a s args = .ok st) : ∀ x, covers s x → covers st.state x := by
+/-- every statement of a rule method leaves the marker bookkeeping alone, except the two that are
+    there to change it: registering a marker and recording a reference -/
+theorem execAct_kinds (cfg : Cfg) (a : Act) (s : RState) (args : Args) (st : Step)
+    (h : execAct cfg a s args = .ok st) :
+    SameRefs s st.state ∨ (∃ dt, markObject cfg s dt = .ok st.state) ∨
+      (∃ id m, localReference s id m = .ok st.state) := by
   cases a
   case localRefKeyable =>
     simp only [execAct, bind, Except.bind, pure, Except.pure] at h
     cases hl : localReference s args.id Mask.keyable.bits with
     | error e => simp [hl] at h
-    | ok s1 => simp only [hl] at h; injection h with h; subst h; exact (localReference_covers _ _ _ _ hl).2
+    | ok s1 => simp only [hl] at h; injection h with h; subst h; exact Or.inr (Or.inr ⟨_, _, hl⟩)
   case localRefAny =>
     simp only [execAct, bind, Except.bind, pure, Except.pure] at h
     cases hl : localReference s args.id Mask.any.bits with
     | error e => simp [hl] at h
-    | ok s1 => simp only [hl] at h; injection h with h; subst h; exact (localReference_covers _ _ _ _ hl).2
+    | ok s1 => simp only [hl] at h; injection h with h; subst h; exact Or.inr (Or.inr ⟨_, _, hl⟩)
   case markObject src =>
     simp only [execAct, actMarkObject, bind, Except.bind, pure, Except.pure] at h
     split at h
     · cases h
     · rename_i v hm
       injection h with h; subst h
-      exact markObject_covers cfg _ _ _ hm
-  all_goals apply sameRefs_covers
+      exact Or.inr (Or.inl ⟨_, hm⟩)
+  all_goals left
   case wrongType => simp [execAct] at h
   case unknown => simp [execAct] at h
   case changeRule r => simp only [execAct] at h; injection h with h; subst h; exact ⟨rfl, rfl⟩
@@ -374,6 +376,14 @@ theorem execAct_covers (cfg : Cfg) (a : Act) (s : RState) (args : Args) (st : St
 
 end CE.Rules
 namespace CE.Rules
+
+/-- … so coverage only grows -/
+theorem execAct_covers (cfg : Cfg) (a : Act) (s : RState) (args : Args) (st : Step)
+    (h : execAct cfg a s args = .ok st) : ∀ x, covers s x → covers st.state x := by
+  rcases execAct_kinds cfg a s args st h with hs | ⟨dt, hm⟩ | ⟨id, m, hl⟩
+  · exact sameRefs_covers hs
+  · exact markObject_covers cfg _ _ _ hm
+  · exact (localReference_covers _ _ _ _ hl).2
 
 /-- running any statement list, nested rule calls included: coverage only grows -/
 theorem runActs_covers (tbl : RuleTable) (cfg : Cfg) : ∀ (fuel : Nat) (acts : List Act) (s : RState) (args : Args) (s' : RState),
@@ -600,5 +610,130 @@ theorem accepted_references_have_markers (env : Env) (htbl : env.tbl = Model.rul
       rcases hcall id (Or.inr hc) with h' | h'
       · rw [hm] at h'; exact h'
       · rw [hf] at h'; simp at h'
+
+end CE.Rules
+
+namespace CE.Rules
+
+/-- the registered marker identifiers are pairwise distinct -/
+def MarkersDistinct (s : RState) : Prop := (s.marked.map (·.1)).Nodup
+
+theorem lookup_none_not_mem (l : List (Bytes × DT)) (id : Bytes) (h : (lookupForward l id).isSome = false) :
+    id ∉ l.map (·.1) := by
+  intro hm
+  obtain ⟨p, hp, rfl⟩ := List.mem_map.mp hm
+  unfold lookupForward at h
+  have : (l.find? (fun q => q.1 == p.1)).isSome = true := by
+    rw [List.find?_isSome]
+    exact ⟨p, hp, by simp⟩
+  cases hf : l.find? (fun q => q.1 == p.1) with
+  | none => simp [hf] at this
+  | some q => simp [hf] at h
+
+theorem markObject_distinct (cfg : Cfg) (s s' : RState) (dt : DT) (h : markObject cfg s dt = .ok s')
+    (hd : MarkersDistinct s) : MarkersDistinct s' := by
+  unfold markObject at h
+  simp only [bind, Except.bind, pure, Except.pure, throw, throwThe, MonadExceptOf.throw] at h
+  split at h
+  · cases h
+  split at h
+  · cases h
+  rename_i hdup
+  have hnot : s.markerID ∉ s.marked.map (·.1) := lookup_none_not_mem _ _ (by simpa using hdup)
+  have key : ∀ f', MarkersDistinct { s with refCount := s.refCount + 1, marked := (s.markerID, dt) :: s.marked, forward := f' } := by
+    intro f'
+    unfold MarkersDistinct
+    simp only [List.map_cons, List.nodup_cons]
+    exact ⟨hnot, hd⟩
+  split at h
+  · injection h with h; subst h; exact key _
+  · split at h
+    · cases h
+    · injection h with h; subst h; exact key _
+
+theorem localReference_distinct (s s' : RState) (id : Bytes) (m : DT) (h : localReference s id m = .ok s')
+    (hd : MarkersDistinct s) : MarkersDistinct s' := by
+  unfold localReference at h
+  split at h
+  · split at h
+    · cases h
+    · injection h with h; subst h; exact hd
+  · injection h with h; subst h; exact hd
+
+theorem execAct_distinct (cfg : Cfg) (a : Act) (s : RState) (args : Args) (st : Step)
+    (h : execAct cfg a s args = .ok st) (hd : MarkersDistinct s) : MarkersDistinct st.state := by
+  rcases execAct_kinds cfg a s args st h with hs | ⟨dt, hm⟩ | ⟨id, m, hl⟩
+  · unfold MarkersDistinct at *; rw [hs.1]; exact hd
+  · exact markObject_distinct cfg _ _ _ hm hd
+  · exact localReference_distinct _ _ _ _ hl hd
+
+theorem runActs_distinct (tbl : RuleTable) (cfg : Cfg) : ∀ (fuel : Nat) (acts : List Act) (s : RState) (args : Args) (s' : RState),
+    runActs tbl cfg fuel acts s args = .ok s' → MarkersDistinct s → MarkersDistinct s'
+  | _, [], s, _, s', h, hd => by
+    simp only [runActs] at h
+    injection h with h; subst h; exact hd
+  | 0, _ :: _, _, _, _, h, _ => by simp [runActs] at h
+  | fuel + 1, a :: rest, s, args, s', h, hd => by
+    simp only [runActs] at h
+    cases he : execAct cfg a s args with
+    | error e => simp [he] at h
+    | ok st =>
+      have hd1 := execAct_distinct cfg a s args st he hd
+      simp only [he] at h
+      cases st with
+      | next s1 args1 =>
+        simp only [] at h
+        exact runActs_distinct tbl cfg fuel rest s1 args1 s' h hd1
+      | ret s1 =>
+        simp only [] at h
+        injection h with h; subst h
+        exact hd1
+      | call s1 r m args1 thenRet =>
+        simp only [] at h
+        cases hc : runActs tbl cfg fuel (tbl r m) s1 args1 with
+        | error e => simp [hc] at h
+        | ok s2 =>
+          simp only [hc] at h
+          have h2 := runActs_distinct tbl cfg fuel (tbl r m) s1 args1 s2 hc hd1
+          cases thenRet with
+          | true =>
+            simp only [if_true] at h
+            injection h with h; subst h
+            exact h2
+          | false =>
+            simp only [Bool.false_eq_true, if_false] at h
+            exact runActs_distinct tbl cfg fuel rest s2 args s' h h2
+
+theorem distinct_nno_call (tbl : RuleTable) (cfg : Cfg) (s s1 s2 : RState) (b : Bool) (m : Method) (args : Args)
+    (h1 : notifyNewObject cfg s b = .ok s1) (h2 : call tbl cfg s1 m args = .ok s2) (hd : MarkersDistinct s) :
+    MarkersDistinct s2 := by
+  have : MarkersDistinct s1 := by unfold MarkersDistinct at *; rw [(nno_same cfg s s1 b h1).1]; exact hd
+  exact runActs_distinct tbl cfg _ _ s1 args s2 h2 this
+
+theorem step_distinct (env : Env) (s : RState) (e : Ev) (r : RState × List Ev) (h : step env s e = .ok r)
+    (hd : MarkersDistinct s) : MarkersDistinct r.1 := by
+  unfold step at h
+  cases e
+  all_goals simp only [bind, Except.bind, pure, Except.pure, throw, throwThe, MonadExceptOf.throw] at h
+  all_goals repeat' (split at h)
+  all_goals first
+    | (cases h; done)
+    | (injection h with h; subst h
+       first
+         | exact distinct_nno_call _ _ _ _ _ _ _ _ (by assumption) (by assumption) hd
+         | exact runActs_distinct _ _ _ _ _ _ _ (by assumption) hd)
+
+/-- NO MARKER IDENTIFIER IS REGISTERED TWICE, in any state the validator reaches on any stream -/
+theorem run_distinct (env : Env) : ∀ (evs : List Ev) (s : RState) (i : Nat), MarkersDistinct s →
+    MarkersDistinct (run env s evs i).2.2
+  | [], s, i, hd => by simpa [run] using hd
+  | e :: es, s, i, hd => by
+    simp only [run]
+    cases hs : step env s e with
+    | error err => simpa using hd
+    | ok r =>
+      obtain ⟨s1, fwd⟩ := r
+      simp only []
+      exact run_distinct env es s1 (i + 1) (step_distinct env s e (s1, fwd) hs hd)
 
 end CE.Rules
